@@ -29,7 +29,7 @@ RULE = ("fault classes per configuration: F0 missing, F1 empty, F2 truncation (e
         "elsewhere in quick, every offset in thorough), F3 single-byte corruption (xor 0xFF and a random byte, same offset sets), "
         "F4a OSError(ENOSPC) raised at the k-th write() on the zip stream for every k (persisting and transient), then gc, "
         "F4b the saver process killed by strace at its k-th write(2) on the cache file for every k, F5 the cache file of a "
-        "configuration differing in exactly one field placed under the requested name; F6 sequences of 2-3 faults (truncate / flip a byte / delete / "
+        "configuration differing in exactly one field placed under the requested name; F5c two configurations differing only in the seed whose cache file names really coincide (found by scanning seeds; the name keeps five digits of the hash): the second request must raise or return its own mazes; F6 sequences of 2-3 faults (truncate / flip a byte / delete / "
         "empty / append garbage), each applied to the file the previous recovery left behind; plus the intact-cache hit. After every "
         "fault MazeDataset.from_config(cfg, local_base_path=tmp, do_download=False) must return the mazes of a fresh generation "
         "(or, for F5, raise), and the file left behind must load and hold those mazes. "
@@ -37,7 +37,7 @@ RULE = ("fault classes per configuration: F0 missing, F1 empty, F2 truncation (e
 ASSUMPTIONS = ["crash points are the write() calls the zip writer issues on this platform; torn writes below the syscall boundary are approximated by byte truncation",
                "zlib CRC / zipfile / zanj are trusted to detect what they detect", "serial generation is deterministic (C04)"]
 NSHARDS = {"quick": 16, "thorough": 16}
-THRESHOLDS = {"quick": {"c11:F0": 3, "c11:F1": 3, "c11:F2": 600, "c11:F3": 600, "c11:F4a": 30, "c11:F5": 20, "c11:F6": 100, "c11:intact-hit": 3,
+THRESHOLDS = {"quick": {"c11:F0": 3, "c11:F1": 3, "c11:F2": 600, "c11:F3": 600, "c11:F4a": 30, "c11:F5": 20, "c11:F5c": 2, "c11:F6": 100, "c11:intact-hit": 3,
                         "c11:reader-raised-and-regenerated": 300, "c11:file-left-behind-checked": 1000, "c11:F5:raised": 15,
                         "c11:F5:n_mazes-foreign": 3}}
 THRESHOLDS["thorough"] = {**THRESHOLDS["quick"], "c11:F2": 20000, "c11:F3": 20000}
@@ -330,6 +330,48 @@ def run(ctx):
             shutil.rmtree(obase, ignore_errors=True)
             with open(path, "wb") as f:
                 f.write(good)
+        # ---- F5c: a *naturally* colliding cache file: another configuration (different seed) whose to_fname() is the same
+        # (the file name keeps only five digits of the hash, so seed sweeps in one directory do collide) -----------------------
+        if ctx.mine_key(spec["key"], "F5c"):
+            seen = {}
+            pair = None
+            for sd in range(100000, 100000 + (4000 if ctx.quick else 20000)):
+                o = dict(json.loads(json.dumps(spec)), seed=sd)
+                with warnings.catch_warnings():
+                    warnings.simplefilter("ignore")
+                    fn = c04_child.make_cfg(o).to_fname()
+                if fn in seen:
+                    pair = (seen[fn], sd)
+                    break
+                seen[fn] = sd
+            if pair is None:
+                ctx.tally("c11:F5c:no-collision-found")
+            else:
+                cbase = os.path.join(ctx.work, f"collide-{spec['key']}")
+                os.makedirs(cbase, exist_ok=True)
+                sa, sb = dict(json.loads(json.dumps(spec)), seed=pair[0]), dict(json.loads(json.dumps(spec)), seed=pair[1])
+                case = dict(spec=spec["key"], fault="F5c", seeds=list(pair))
+                try:
+                    with warnings.catch_warnings():
+                        warnings.simplefilter("ignore")
+                        da = digests(request(c04_child.make_cfg(sa), cbase))
+                        refb = digests(MazeDataset.from_config(c04_child.make_cfg(sb), load_local=False, save_local=False, do_download=False))
+                    ctx.ev(); ctx.tally("c11:F5c")
+                    try:
+                        out = request(c04_child.make_cfg(sb), cbase)
+                        db = digests(out)
+                        ctx.check(db == refb and int(out.cfg.seed) == pair[1], "C11/F5c/colliding-file-name-served-other-configuration",
+                                  f"seeds {pair} share the cache file name; the request for seed {pair[1]} returned " +
+                                  ("the mazes cached for seed %d" % pair[0] if db == da else "mazes of neither configuration") + f" (cfg.seed={out.cfg.seed})", case)
+                        ctx.tally("c11:F5c:regenerated-or-correct")
+                    except ValueError:
+                        ctx.tally("c11:F5c:raised")
+                    except Exception as e:  # noqa: BLE001
+                        ctx.violation(f"C11/F5c/wrong-exception/{type(e).__name__}", repr(e)[:300], case)
+                    ctx.nontrivial(spec["key"], "F5c", pair)
+                except Exception as e:  # noqa: BLE001
+                    ctx.violation(f"C11/F5c/setup-exception/{type(e).__name__}", repr(e)[:300], case)
+                shutil.rmtree(cbase, ignore_errors=True)
         shutil.rmtree(base, ignore_errors=True)
 
 
